@@ -332,6 +332,9 @@ def runHistory (inp out : Json) : Json := Id.run do
     kk := kk + 1
   if !(jarr out "ctxChanged").isEmpty then
     fails := fails ++ [{ prop := "C08", code := "caller_context_changed", detail := (jget out "ctxChanged").compress }]
+  -- C09 for members without a model: the Batch yields what the members yield one after the other
+  if jstr (jget out "batchUnion") != "" then
+    fails := fails ++ [{ prop := "C09", code := "batch_differs_from_sequential", detail := jstr (jget out "batchUnion") }]
   return Json.mkObj [("same", Json.bool diffs.isEmpty), ("diff", Json.str (String.intercalate " | " (diffs.take 3))),
                      ("aspects", Json.mkObj [("C08", Json.bool true)]),
                      ("fails", Json.arr (fails.map afailJson).toArray),
